@@ -16,12 +16,14 @@ import (
 	storetypes "cosmossdk.io/store/types"
 	codectypes "github.com/cosmos/cosmos-sdk/codec/types"
 	sdk "github.com/cosmos/cosmos-sdk/types"
+	"github.com/ethereum/go-ethereum/common"
 
 	"github.com/functionx/fx-core/v8/testutil/helpers"
 	fxtypes "github.com/functionx/fx-core/v8/types"
 	crosschainkeeper "github.com/functionx/fx-core/v8/x/crosschain/keeper"
 	"github.com/functionx/fx-core/v8/x/crosschain/precompile"
 	"github.com/functionx/fx-core/v8/x/crosschain/types"
+	erc20types "github.com/functionx/fx-core/v8/x/erc20/types"
 
 	"verifharness/graph"
 	"verifharness/world"
@@ -34,6 +36,7 @@ var envKey = []byte{0xFE, 'e', 'n', 'v'}
 
 type Consts struct {
 	Chain    string   `json:"chain"`
+	Token    string   `json:"Token"` // "FX" (default) or "module": a module-owned ERC-20 pair with a bridge denomination
 	User     []string `json:"User"`
 	MaxTx    int      `json:"MaxTx"`
 	MaxBatch int      `json:"MaxBatch"`
@@ -82,6 +85,9 @@ type Adapter struct {
 	relayer    *helpers.Signer
 	dest       string
 	otherDenom string
+	denom      string         // base denomination users hold and send
+	bridgeDen  string         // the chain's bridge denomination of the token
+	erc20      common.Address // the pair's ERC-20 contract (module kind)
 }
 
 func must(err error) {
@@ -129,18 +135,43 @@ func New(t *testing.T, c Consts) *Adapter {
 	must(w.Handle(ctx, &types.MsgBondedOracle{ChainName: c.Chain, OracleAddress: a.oracle.AccAddress().String(), BridgerAddress: a.bridger.AccAddress().String(),
 		ExternalAddress: world.DetExt(c.Chain + "/ext/oracle"), ValidatorAddress: w.ValAddr[0].String(),
 		DelegateAmount: types.NewDelegateAmount(sdkmath.NewInt(1e18).MulRaw(1000))}))
-	a.tok = world.DetExt(c.Chain + "/token/FX")
 	a.dest = world.DetExt(c.Chain + "/dest")
-	must(a.K.AddBridgeTokenExecuted(ctx, &types.MsgBridgeTokenClaim{ChainName: c.Chain, TokenContract: a.tok, Name: "Function X", Symbol: fxtypes.DefaultDenom, Decimals: 18}))
-	// FX previously bridged out and locked in the module: liquidity for deposits
-	must(w.App.BankKeeper.MintCoins(ctx, "mint", sdk.NewCoins(world.FX(1000))))
-	must(w.App.BankKeeper.SendCoinsFromModuleToModule(ctx, "mint", c.Chain, sdk.NewCoins(world.FX(1000))))
+	a.denom = fxtypes.DefaultDenom
+	if c.Token == "module" {
+		// registered through the governance-authority message; the bridge token as an observed MsgBridgeTokenClaim does it
+		a.tok = world.DetExt(c.Chain + "/token/TUSD")
+		a.bridgeDen = types.NewBridgeDenom(c.Chain, a.tok)
+		md := fxtypes.GetCrossChainMetadataManyToOne("Test USD", "TUSD", 18, a.bridgeDen)
+		must(w.Handle(ctx, &erc20types.MsgRegisterCoin{Authority: world.GovAddr(), Metadata: md}))
+		must(a.K.AddBridgeTokenExecuted(ctx, &types.MsgBridgeTokenClaim{ChainName: c.Chain, TokenContract: a.tok, Name: "Test USD", Symbol: "TUSD", Decimals: 18}))
+		a.denom = md.Base
+		pair, ok := w.App.Erc20Keeper.GetTokenPair(ctx, a.denom)
+		if !ok {
+			panic("pair not registered")
+		}
+		a.erc20 = pair.GetERC20Contract()
+		// holdings that were bridged in earlier: base coins with the users, the matching bridge coins kept by the module
+		total := unit.MulRaw(c.InitBal * int64(len(c.User)))
+		must(w.App.BankKeeper.MintCoins(ctx, c.Chain, sdk.NewCoins(sdk.NewCoin(a.bridgeDen, total))))
+	} else {
+		a.tok = world.DetExt(c.Chain + "/token/FX")
+		a.bridgeDen = fxtypes.DefaultDenom
+		must(a.K.AddBridgeTokenExecuted(ctx, &types.MsgBridgeTokenClaim{ChainName: c.Chain, TokenContract: a.tok, Name: "Function X", Symbol: fxtypes.DefaultDenom, Decimals: 18}))
+		// FX previously bridged out and locked in the module: liquidity for deposits
+		must(w.App.BankKeeper.MintCoins(ctx, "mint", sdk.NewCoins(world.FX(1000))))
+		must(w.App.BankKeeper.SendCoinsFromModuleToModule(ctx, "mint", c.Chain, sdk.NewCoins(world.FX(1000))))
+	}
 	// a second bridged token of the same chain, held by every user (only ever offered as a fee for FX transfers)
 	other := world.DetExt(c.Chain + "/token/OTHER")
 	must(a.K.AddBridgeTokenExecuted(ctx, &types.MsgBridgeTokenClaim{ChainName: c.Chain, TokenContract: other, Name: "Other", Symbol: "OTH", Decimals: 18}))
 	a.otherDenom = types.NewBridgeDenom(c.Chain, other)
 	for _, u := range c.User {
-		w.Fund(ctx, a.user(u).AccAddress(), c.InitBal)
+		if c.Token == "module" {
+			w.Fund(ctx, a.user(u).AccAddress(), 100) // gas money only; the token is not FX
+			w.MintCoins(ctx, a.user(u).AccAddress(), sdk.NewCoin(a.denom, unit.MulRaw(c.InitBal)))
+		} else {
+			w.Fund(ctx, a.user(u).AccAddress(), c.InitBal)
+		}
 		w.MintCoins(ctx, a.user(u).AccAddress(), sdk.NewCoin(a.otherDenom, unit.MulRaw(10)))
 	}
 	// fxcore's own height is far above every external height used: a timeout wrongly judged by
@@ -175,6 +206,8 @@ func (a *Adapter) putEnv(ctx sdk.Context, e *Env) {
 
 func fx(n int64) sdk.Coin { return sdk.NewCoin(fxtypes.DefaultDenom, unit.MulRaw(n)) }
 
+func (a *Adapter) coin(n int64) sdk.Coin { return sdk.NewCoin(a.denom, unit.MulRaw(n)) }
+
 func units(x sdkmath.Int) int64 {
 	q := x.Quo(unit)
 	if !q.Mul(unit).Equal(x) {
@@ -203,22 +236,22 @@ func (a *Adapter) Apply(ctx sdk.Context, op graph.Op) (sdk.Context, string) {
 	switch op.Name() {
 	case "Send":
 		err = w.Handle(ctx, &types.MsgSendToExternal{ChainName: ch, Sender: a.user(op.Str("u")).AccAddress().String(), Dest: a.dest,
-			Amount: fx(op.Int("a")), BridgeFee: fx(op.Int("f"))})
+			Amount: a.coin(op.Int("a")), BridgeFee: a.coin(op.Int("f"))})
 	case "Cancel":
 		err = w.Handle(ctx, &types.MsgCancelSendToExternal{ChainName: ch, Sender: a.user(op.Str("u")).AccAddress().String(), TransactionId: uint64(op.Int("id"))})
 	case "IncreaseFee":
-		fee := fx(op.Int("f"))
+		fee := sdk.NewCoin(a.bridgeDen, unit.MulRaw(op.Int("f")))
 		if op.Str("e") == "other" {
 			fee = sdk.NewCoin(a.otherDenom, unit.MulRaw(op.Int("f"))) // another bridged token of the same chain
 		}
 		err = w.Handle(ctx, &types.MsgIncreaseBridgeFee{ChainName: ch, Sender: a.user(op.Str("u")).AccAddress().String(), TransactionId: uint64(op.Int("id")),
 			AddBridgeFee: fee})
 	case "RequestBatch":
-		err = w.Handle(ctx, &types.MsgRequestBatch{ChainName: ch, Sender: a.bridger.AccAddress().String(), Denom: fxtypes.DefaultDenom,
+		err = w.Handle(ctx, &types.MsgRequestBatch{ChainName: ch, Sender: a.bridger.AccAddress().String(), Denom: a.bridgeDen,
 			MinimumFee: unit.MulRaw(op.Int("f")), FeeReceive: world.DetExt(ch + "/feereceive"), BaseFee: unit.MulRaw(op.Int("a"))})
 	case "BridgeCall":
 		u := a.user(op.Str("u")).AccAddress().String()
-		err = w.Handle(ctx, &types.MsgBridgeCall{ChainName: ch, Sender: u, Refund: u, Coins: sdk.NewCoins(fx(op.Int("a"))), To: a.dest, Data: "", Value: sdkmath.ZeroInt(), Memo: ""})
+		err = w.Handle(ctx, &types.MsgBridgeCall{ChainName: ch, Sender: u, Refund: u, Coins: sdk.NewCoins(a.coin(op.Int("a"))), To: a.dest, Data: "", Value: sdkmath.ZeroInt(), Memo: ""})
 	case "FxBlock":
 		// end of this block, begin of the next one, through the application's real begin/end blockers
 		err = world.Atomic(ctx, func(c sdk.Context) error {
@@ -457,7 +490,14 @@ func (a *Adapter) Project(ctx sdk.Context) any {
 	it.Close()
 	bal := map[string]int64{}
 	for _, u := range c.User {
-		bal[u] = units(a.W.App.BankKeeper.GetBalance(ctx, a.user(u).AccAddress(), fxtypes.DefaultDenom).Amount)
+		total := a.W.App.BankKeeper.GetBalance(ctx, a.user(u).AccAddress(), a.denom).Amount
+		if c.Token == "module" { // every representation of the token the user can hold
+			total = total.Add(a.W.App.BankKeeper.GetBalance(ctx, a.user(u).AccAddress(), a.bridgeDen).Amount)
+			eb, err := a.W.App.EvmKeeper.ERC20BalanceOf(ctx, a.erc20, a.user(u).Address())
+			must(err)
+			total = total.Add(sdkmath.NewIntFromBigInt(eb))
+		}
+		bal[u] = units(total)
 	}
 	var lobh types.LastObservedBlockHeight
 	if bz := st.Get(types.LastObservedBlockHeightKey); len(bz) > 0 {
